@@ -943,6 +943,147 @@ pub fn c11_replay(case_json: &Value, st: &mut Stats) -> CheckResult {
 }
 
 // ---------------------------------------------------------------------------------------------
+// C01 under overlap: "the accepted versions always form a single chain" is also owed when the
+// requests that were accepted overlapped in time.  All scheduler-owned interleavings of small
+// batches of AddVersion requests (a new client's very first requests included); afterwards the
+// chain is walked through GetChildVersion against the set of acknowledged versions.
+
+pub fn c01_judge(cc: &CCase, ex: &mut Exec, st: &mut Stats) -> CheckResult {
+    st.check();
+    let what = describe(cc, ex);
+    let c = ex.hist.clients[0];
+    let mut accepted: Vec<(Uuid, Uuid)> = ex.start.chain.iter().map(|v| (v.id, v.parent)).collect();
+    for (t, reqs) in cc.batch.iter().enumerate() {
+        for (k, r) in reqs.iter().enumerate() {
+            if let (BReq::AddVersion { .. }, Some((p, _, Outcome::Accepted { id, .. }))) = (r, ex.results[t].get(k)) {
+                accepted.push((*id, *p));
+            }
+        }
+    }
+    if accepted.is_empty() {
+        return Ok(());
+    }
+    for (i, a) in accepted.iter().enumerate() {
+        for b in accepted.iter().skip(i + 1) {
+            if a.1 == b.1 {
+                return v(format!("acknowledged versions {} and {} share the parent {}: {what}", a.0, b.0, a.1));
+            }
+            if a.0 == b.0 {
+                return v(format!("version id {} was acknowledged twice: {what}", a.0));
+            }
+        }
+    }
+    // the chain starts at the one parent that is not itself an acknowledged version
+    let roots: Vec<Uuid> = accepted.iter().map(|a| a.1).filter(|p| !accepted.iter().any(|a| a.0 == *p)).collect();
+    if roots.len() != 1 {
+        return v(format!("the acknowledged versions do not form one chain (chain starts: {roots:?}): {what}"));
+    }
+    let mut p = roots[0];
+    let mut seen = 0usize;
+    loop {
+        match ex.hist.drv.get_child(c, p) {
+            Outcome::Found { id, parent, .. } => {
+                if parent != p || !accepted.contains(&(id, p)) {
+                    return v(format!("walking the chain: the child of {p} is reported as ({id}, parent {parent}), which was never acknowledged like that: {what}"));
+                }
+                seen += 1;
+                if seen > accepted.len() {
+                    return v(format!("walking the chain does not end: {what}"));
+                }
+                p = id;
+            }
+            Outcome::NotFound => break,
+            o => return v(format!("walking the chain: GetChildVersion({p}) answered {} after {seen} of {} acknowledged versions: {what}", o.short(), accepted.len())),
+        }
+    }
+    if seen != accepted.len() {
+        return v(format!("walking the chain from {} reaches {seen} of {} acknowledged versions and then answers not-found at {p}: an acknowledged version is unreachable: {what}", roots[0], accepted.len()));
+    }
+    let b = &ex.log.blocks;
+    st.label(&format!("c01:overlap:{:?}/{:?}", cc.conf, cc.via));
+    let kinds: Vec<Vec<&str>> = cc.batch.iter().map(|t| t.iter().map(|r| r.kind()).collect()).collect();
+    if b.len() >= 3 {
+        st.nontrivial(&("c01-overlap", cc.conf, cc.via, kinds, b.clone(), ex.start.chain.len()));
+    }
+    Ok(())
+}
+
+fn c01_all_schedules(base: &CCase, st: &mut Stats) -> CheckResult {
+    let mut prefix: Vec<u16> = vec![];
+    let mut runs = 0usize;
+    loop {
+        let mut cc = base.clone();
+        cc.choices = prefix.clone();
+        let mut ex = execute(&cc)?;
+        if let Some(m) = &ex.log.inconclusive {
+            return Err(Fail::Inconclusive(format!("scheduler: {m}")));
+        }
+        let mut taken = ex.log.decisions.clone();
+        c01_judge(&cc, &mut ex, st).map_err(|f| match f {
+            Fail::Violation(m) => Fail::Violation(format!("schedule {:?}: {m}", cc.choices)),
+            o => o,
+        })?;
+        runs += 1;
+        if runs > 3000 {
+            return Err(Fail::Inconclusive("more than 3000 schedules".into()));
+        }
+        loop {
+            match taken.pop() {
+                None => return Ok(()),
+                Some((width, idx)) => {
+                    if idx + 1 < width {
+                        prefix = taken.iter().map(|(_, i)| *i as u16).collect();
+                        prefix.push((idx + 1) as u16);
+                        break;
+                    }
+                }
+            }
+        }
+    }
+}
+
+fn c01_batches(tier: Tier) -> Vec<CCase> {
+    let prefix_existing = vec![Op::AddVersion { c: 0, parent: case::IdRef::Fresh(100), data: bs(10) }, Op::AddVersion { c: 0, parent: case::IdRef::Latest(0), data: bs(11) }];
+    let mut out = vec![];
+    for conf in [Conf::Mem, Conf::Sqlite1, Conf::SqliteN] {
+        for via in [Via::Http, Via::Lib] {
+            for existing in [false, true] {
+                let first = if existing { BId::Latest } else { BId::Nil };
+                let av = |p: &BId, s: u32| BReq::AddVersion { parent: p.clone(), data: bs(s) };
+                let mut batches = vec![
+                    vec![vec![av(&first, 1)], vec![av(&first, 2)]],
+                    vec![vec![av(&first, 3), av(&BId::Latest, 4)], vec![av(&first, 5)]],
+                    vec![vec![av(&first, 6)], vec![av(&BId::Fresh(7), 7)]],
+                ];
+                if tier == Tier::Thorough || conf != Conf::Sqlite1 {
+                    batches.push(vec![vec![av(&first, 8)], vec![av(&first, 9)], vec![av(&first, 10)]]);
+                }
+                for batch in batches {
+                    out.push(CCase { conf, via, prefix: if existing { prefix_existing.clone() } else { vec![] }, cfg: Cfg { snapshot_days: 14, snapshot_versions: 2 }, batch, choices: vec![], probes: vec![] });
+                }
+            }
+        }
+    }
+    out
+}
+
+/// Sub-run of the C01 check: all schedules of overlapping AddVersion requests.
+pub fn c01_overlap_subrun(rep: &mut Report, tier: Tier) {
+    let r = engine::replay_dir::<CCase, _>("C01", "overlap", c01_all_schedules);
+    rep.absorb("replay-tier-overlap", r);
+    if rep.failed() {
+        return;
+    }
+    let r = engine::enumerate("C01", "overlap", c01_batches(tier), c01_all_schedules);
+    rep.absorb("overlapping-add-version-all-schedules", r);
+}
+
+pub fn c01_replay(case_json: &Value, st: &mut Stats) -> CheckResult {
+    let cc: CCase = serde_json::from_value(case_json.clone()).map_err(|e| Fail::Inconclusive(format!("bad replay file: {e}")))?;
+    c01_all_schedules(&cc, st)
+}
+
+// ---------------------------------------------------------------------------------------------
 // Stress complement: schedules the operating system picks (sound, not complete, and a failure
 // need not reproduce from its replay file - the saved case re-runs the same scripts)
 
